@@ -231,6 +231,9 @@ instance : Monad M where
 @[inline] def modify (f : St → St) : M Unit := fun s => (.ok (), f s)
 /-- lift a pure computation that may raise -/
 @[inline] def ofRes (r : Res α) : M α := fun s => (r, s)
+/-- a read of the raw positions only (`self._supplies`, `self._borrows`); nothing changes -/
+@[inline] def queryPos (q : AList String SupplyInfo → AList String BorrowInfo → Res α) : M α :=
+  fun s => (q s.supplies s.borrows, s)
 /-- `require(cond, msg)` -/
 @[inline] def require (c : Bool) (e : Err) : M Unit := fun s => if c then (.ok (), s) else (.error e, s)
 end M
